@@ -183,7 +183,11 @@ def _bufof(b):
     """mpi4py buffer spec: array or (array, datatype) or (array, counts, displs, datatype)"""
     if isinstance(b, (tuple, list)):
         return b[0], (b[-1] if len(b) > 1 else None), b
-    return b, None, None
+    # a bare numpy array: mpi4py derives the MPI datatype from the array's dtype (object arrays are the symbolic model: unknown)
+    dt = None
+    if isinstance(b, _np.ndarray) and b.dtype != object:
+        dt = b.dtype.name
+    return b, dt, None
 
 
 def _perform(world, cs, slot):
@@ -195,6 +199,8 @@ def _perform(world, cs, slot):
     if kind == 'Alltoall':
         sends = [x['send'] for x in P]
         recvs = [x['recv'] for x in P]
+        if all('sdtype' in x for x in P):
+            _same([x['sdtype'] for x in P] + [x['rdtype'] for x in P], 'Alltoall datatype', cs)
         n = _same([s.size for s in sends], 'Alltoall send count', cs)
         for r in range(p):
             if not _truth(recvs[r].size == n):
@@ -382,7 +388,7 @@ class Comm:
     def Alltoall(self, send, recv):
         s, sdt, _ = _bufof(send)
         r, rdt, _ = _bufof(recv)
-        self.world.collective(self, 'Alltoall', dict(send=s, recv=r), ('Alltoall', self.cid, None, sdt, s.size))
+        self.world.collective(self, 'Alltoall', dict(send=s, recv=r, sdtype=sdt, rdtype=rdt), ('Alltoall', self.cid, None, sdt, s.size))
 
     def Allgather(self, send, recv):
         s, sdt, _ = _bufof(send)
